@@ -298,6 +298,27 @@ def check_cone(run, rule, F, cfg, roots, rows, accept_bases, stop=(), floor=0, l
             cands = [r for r in cands if not any(rows.get(k2) is r for k2 in taken)]
             if len(cands) == 1:
                 row = cands[0]
+        if row is None and s.kind in ("index", "assert"):
+            # the same site spelled with an Option combinator (`o.map_or(d, |x| e)` for `if let Some(x) = o { e } else { d }`)
+            # or through a tuple scrutinee: look the row up under the key of the normalised rendering (Fn.normalised),
+            # which is the plain rendering of the spelling the row was reviewed for
+            try:
+                with s.fn.normalised():
+                    twin = [s2 for s2 in panics.enumerate_sites(s.fn) if s2.bb == s.bb and s2.kind == s.kind and s2.what == s.what]
+                    if len(twin) == 1:
+                        row = rows.get(site_key(twin[0]))
+            except Exception:
+                row = None
+        if row is None and s.kind == "assert" and re.match(r"^Overflow\(Add\):[iu](8|16|32)$", s.what):
+            # a narrow counter incremented by one that lives in this call only (no `self`, no static in its operand): the
+            # reviewed argument for the counters of this function (rows without required guards: "reset on every call,
+            # one increment per element of the input") covers it whatever container the count is kept in
+            ops_ = norm(s.fn, s.expr)
+            if ops_.rstrip().endswith(", 1") and not re.search(r"arg#1\b|arg:self|static:", ops_):
+                pre = f"{s.fn.name}|assert|{s.what}|"
+                cands = [r for k_, r in rows.items() if k_.startswith(pre) and r.get("guards") == []]
+                if cands:
+                    row = cands[0]
         if row is None:
             und += 1
             run.ob(rule, inst, False,
